@@ -142,7 +142,7 @@ func (nr *nativeRunner) run(files []string) (map[string]*nativeResult, error) {
 	}
 	list := filepath.Join(nr.dir, fmt.Sprintf("models-%d.txt", time.Now().UnixNano()))
 	os.WriteFile(list, []byte(strings.Join(files, "\n")+"\n"), 0o644)
-	cmd := exec.Command(nr.bin, "-test.run", "^TestVfReplay$", "-test.count=1", "-test.timeout=600s")
+	cmd := exec.Command(nr.bin, "-test.run", "^TestVfReplay$", "-test.count=1", "-test.timeout=1800s")
 	cmd.Dir = repoDir
 	cmd.Env = append(os.Environ(), "VF_MODELS="+list)
 	out, err := cmd.CombinedOutput()
